@@ -62,6 +62,57 @@ def run(ck, ctx):
     results = {}
 
     # ---------------------------------------------------------------- R19.1 sibling agreement
+    def cells_of(fname, x, runs):
+        """Evaluate each copy's result as a function of the element in every cell of the partition spanned by the
+        masks it uses (layer-table look-ups are atoms of their table, the layer index is checked by R19.2).
+        Returns {cell label: [Val per copy]} plus the facets needed to show them."""
+        import itertools
+        from ..facets.poly import PolyFacet, eval_formula
+        from ..interp_expr import is_basic_index
+        tabs = {t.id for t in tables.values()}
+
+        def masks_of(v):
+            out, seen, stack = [], set(), [v]
+            while stack:
+                n = stack.pop()
+                if id(n) in seen:
+                    continue
+                seen.add(id(n))
+                if n.op == "Subscript" and n.args[0].id in tabs:
+                    continue                # table[layer index]: the index is not part of the element algebra
+                if n.op == "Subscript" and is_basic_index(n.args[1]) is False and _is_masklike(n.args[1]):
+                    out.append(n.args[1])
+                if n.op == "Scatter":
+                    out.append(n.args[1])
+                if is_ext_call(n, "numpy.where") and len(n.args) == 4:
+                    out.append(n.args[1])
+                stack.extend(n.args)
+            return out
+        Pk = PolyFacet(I, gather_transparent=True)
+        pr = Pred(I, poly=Pk)
+        atoms = {}
+        for _m, _f, r in runs:
+            for m_ in masks_of(r.value):
+                f = pr.formula(m_)
+                for key in pr.atoms_of(f):
+                    # comparisons of a layer-table entry with a constant index select the layer, not the formula
+                    kind, l, r_ = pr.atoms[key]
+                    if any(y is not None and y.op == "Subscript" and y.args[0].id in tabs and y.args[1].op == "Const"
+                           for y in (l, r_)):
+                        continue
+                    atoms.setdefault(key, pr.atoms[key])
+        if len(atoms) > 5:
+            raise AnalysisError(f"{fname}: {len(atoms)} independent mask atoms")
+        keys = sorted(atoms, key=str)
+        out = {}
+        for combo in itertools.product((True, False), repeat=len(keys)):
+            assign = dict(zip(keys, combo))
+            Pc = PolyFacet(I, gather_transparent=True)
+            Pc.cell = (pr, assign)
+            label = ", ".join(("" if b_ else "not ") + "(" + pr.show_atom(k_) + ")" for k_, b_ in zip(keys, combo)) or "always"
+            out[label] = (Pc, [Pc.of(r.value) for _m, _f, r in runs])
+        return out
+
     def r191():
         for fname in FUNCS:
             x = I.input("x")
@@ -78,13 +129,28 @@ def run(ck, ctx):
             results[fname] = (x, vals)
             (m1, f1, r1), (m2, f2, r2) = vals
             same = g.same(r1.value, r2.value)
-            ck.ob("R19.1", f"{fname}: the copies in atmosphere/pressure.py and eas_optical/atmospheric_models.py have "
-                  "the same operation graph", same, r2.value, fname,
-                  "identical" if same else _first_difference(g, r1.value, r2.value),
-                  construct=f"{fname}: the two shipped copies differ")
             n_un = sum(1 for e in list(r1.effects) + list(r2.effects) if e.kind == "unsupported")
             ck.ob("R19.1", f"{fname}: both copies are inside the modelled Python subset", n_un == 0, r1.value, fname,
                   f"{n_un} unsupported construct(s)")
+            if same:
+                ck.ob("R19.1", f"{fname}: the copies in atmosphere/pressure.py and eas_optical/atmospheric_models.py "
+                      "compute the same function", True, r2.value, fname, "identical operation graphs (bit for bit)")
+                continue
+            # the spellings differ: compare the two copies cell by cell as algebraic functions of the element
+            cells = cells_of(fname, x, vals)
+            diff = []
+            for label, (Pc, (va, vb)) in cells.items():
+                if not Pc.equal(va, vb):
+                    diff.append(f"[{label}] {Pc.show(va)[:140]}  vs  {Pc.show(vb)[:140]}")
+            ck.ob("R19.1", f"{fname}: the copies in atmosphere/pressure.py and eas_optical/atmospheric_models.py "
+                  "compute the same function", not diff, r2.value, fname,
+                  (f"operation graphs differ ({_first_difference(g, r1.value, r2.value)[:160]}); algebraically equal in "
+                   f"all {len(cells)} cells of the mask partition - bit-for-bit agreement of differently spelled copies "
+                   "is not decided") if not diff else "; ".join(diff[:3]),
+                  construct=f"{fname}: the two shipped copies differ")
+            if not diff:
+                ck.note(f"{fname}: the two copies are spelled differently; they are algebraically the same function in "
+                        "every cell, rounding-level agreement is NOT decided")
         for name in ("H_b", "Lm_b", "T_b", "P_b", "gmr"):
             a = I.global_value(I.module(PRESS_MOD), name)
             b = I.global_value(I.module(ATM_MOD), name)
@@ -95,59 +161,90 @@ def run(ck, ctx):
 
     # ---------------------------------------------------------------- R19.2 layer index consistency
     def r192():
+        from .common import decision_list
         tab_ids = {t.id: n for n, t in tables.items()}
         for fname in FUNCS:
             if fname not in results:
                 continue
             x, vals = results[fname]
-            mod, fi, r = vals[0]
-            subs = [n for n in walk([r.value]) if n.op == "Subscript" and n.args[0].id in tab_ids and
-                    n.args[1].op not in ("Const", "Slice")]
-            idxs = {g.vn(n.args[1]) for n in subs}
-            used = {tab_ids[n.args[0].id] for n in subs}
-            ck.ob("R19.2", f"{fname}: all layer tables are indexed by the same layer-index term", len(idxs) == 1, r.value,
-                  fname, f"{len(subs)} table look-ups, {len(idxs)} distinct index term(s), tables {sorted(used)}")
-            ck.floor("R19.2", len(subs), 6, f"layer-table look-ups in {fname}")
-            ck.ob("R19.2", f"{fname}: uses all four layer tables", len(used) == 4, r.value, fname, str(sorted(used)))
-            # isothermal branch: Lm_b[i] == 0
-            lm = tables["std_atm_lack_rate"]
-            eqs = [n for n in walk([r.value]) if n.op == "Compare" and n.attr == "Eq" and
-                   any(a.op == "Subscript" and a.args[0] is lm for a in n.args) and
-                   any(a.op == "Const" and a.attr == 0 for a in n.args)]
-            ck.ob("R19.2", f"{fname}: the isothermal formula is selected by lapse rate == 0", len({g.vn(e) for e in eqs}) == 1,
-                  r.value, fname, f"{len(eqs)} test(s)")
-            # layer selection comparisons (inclusive, upper layer owns the boundary)
-            key_tab = tables["std_atm_pressure"] if "from_pressure" in fname else tables["std_atm_geopotential_height"]
-            want = "GtE" if "from_pressure" in fname else "LtE"
-            cmps = [n for n in walk([r.value]) if n.op == "Compare" and n.args[0].op == "Subscript" and
-                    n.args[0].args[0] is key_tab and n.args[0].args[1].op == "Const"]
-            oks = [c.attr == want for c in cmps]
-            ck.ob("R19.2", f"{fname}: layer j is selected by table[j] {'>=' if want == 'GtE' else '<='} x (a boundary "
-                  "belongs to the upper layer, as in the inverse direction)", bool(cmps) and all(oks), r.value, fname,
-                  f"{len(cmps)} comparisons: {sorted({c.attr for c in cmps})}")
-            js = sorted(c.args[0].args[1].attr for c in cmps)
-            n_layers = I.static_len(key_tab)
-            ck.ob("R19.2", f"{fname}: every layer 1..{(n_layers or 0) - 1} is considered, in increasing order",
-                  n_layers is not None and js == list(range(1, n_layers)), r.value, fname, f"layers tested: {js}")
-            # special value handling
-            base, chain = scatter_chain(r.value)
-            infs = [sc for sc in chain if sc.args[2].op == "Ext" and sc.args[2].attr == "numpy.inf"]
-            if "from_pressure" in fname:
+            copies = [vals[0]] if g.same(vals[0][2].value, vals[1][2].value) else list(vals)
+            for mod, fi, r in copies:
+                tag = fname if len(copies) == 1 else f"{fname} [{mod.split('.')[-1]}]"
+                subs = [n for n in walk([r.value]) if n.op == "Subscript" and n.args[0].id in tab_ids and
+                        n.args[1].op not in ("Const", "Slice")]
+                idxs = {g.vn(n.args[1]): n.args[1] for n in subs}
+                used = {tab_ids[n.args[0].id] for n in subs}
+                ck.ob("R19.2", f"{tag}: all layer tables are indexed by the same layer-index term", len(idxs) == 1,
+                      r.value, fname, f"{len(subs)} table look-ups, {len(idxs)} distinct index term(s), tables {sorted(used)}")
+                ck.floor("R19.2", len(subs), 4, f"layer-table look-ups in {fname}")
+                ck.ob("R19.2", f"{tag}: uses all four layer tables", len(used) == 4, r.value, fname, str(sorted(used)))
+                # isothermal branch: Lm_b[i] == 0
+                lm = tables["std_atm_lack_rate"]
+                eqs = [n for n in walk([r.value]) if n.op == "Compare" and n.attr in ("Eq", "NotEq") and
+                       any(a.op == "Subscript" and a.args[0] is lm for a in n.args) and
+                       any(a.op == "Const" and a.attr == 0 for a in n.args)]
+                ck.ob("R19.2", f"{tag}: the isothermal formula is selected by lapse rate == 0", len(eqs) >= 1 and
+                      len({g.vn(next(a for a in e.args if a.op == "Subscript")) for e in eqs}) == 1, r.value, fname,
+                      f"{len(eqs)} test(s)")
+                if len(idxs) != 1:
+                    continue
+                # layer selection: the index is a decision list  j if key[j] (>= | <=) x, highest j first
+                key_tab = tables["std_atm_pressure"] if "from_pressure" in fname else tables["std_atm_geopotential_height"]
+                up = "from_pressure" in fname
                 pr = Pred(I)
-                okm = len(infs) == 1 and len(chain) == 2
-                if okm:
-                    f_inf = pr.formula(infs[0].args[1])
-                    other = [sc for sc in chain if sc is not infs[0]][0]
-                    e = pr.equivalent(f_inf, ("not", pr.formula(other.args[1])))
-                    pos = pr.equivalent(pr.formula(other.args[1]), pr.lt(I.const(0), _strip_asarray(I, x, other)))
-                    okm = bool(e and e[0])
-                ck.ob("R19.2", f"{fname}: zero pressure maps to infinite altitude through the complementary mask", okm,
-                      r.value, fname, f"{len(chain)} stores, {len(infs)} storing inf")
-            else:
-                hs = [n for n in walk([r.value]) if n.op == "Scatter" and n.args[2].op == "Ext" and
-                      n.args[2].attr == "numpy.inf"]
-                ck.ob("R19.2", f"{fname}: infinite altitude is carried as infinite geopotential height (top layer, "
-                      "pressure 0)", len(hs) >= 1, r.value, fname, f"{len(hs)} store(s) of inf")
+                idx = I.res(next(iter(idxs.values())), r.st)
+                dl = decision_list(I, pr, idx)
+                n_layers = I.static_len(key_tab)
+                js, ok_sel, others = [], True, {}
+                for f, v in dl[:-1]:
+                    j = v.attr if v is not None and v.op == "Const" and type(v.attr) is int else None
+                    js.append(j)
+                    ats = pr.atoms_of(f)
+                    if j is None or len(ats) != 1:
+                        ok_sel = False
+                        continue
+                    kind, l, rr_ = pr.atoms[ats[0]]
+                    ent = [y for y in (l, rr_) if y.op == "Subscript" and y.args[0] is key_tab and y.args[1].op == "Const"
+                           and y.args[1].attr == j]
+                    oth = [y for y in (l, rr_) if not (y.op == "Subscript" and y.args[0] is key_tab)]
+                    if len(ent) != 1 or len(oth) != 1:
+                        ok_sel = False
+                        continue
+                    others[g.vn(oth[0])] = oth[0]
+                    want = pr.le(oth[0], ent[0]) if up else pr.le(ent[0], oth[0])
+                    e_ = pr.equivalent(f, want)
+                    ok_sel = ok_sel and bool(e_ and e_[0])
+                base_ok = dl[-1][1] is not None and dl[-1][1].op == "Const" and dl[-1][1].attr == 0
+                ck.ob("R19.2", f"{tag}: layer j is selected by table[j] {'>=' if up else '<='} x (a boundary "
+                      "belongs to the upper layer, as in the inverse direction)", bool(js) and ok_sel and base_ok and
+                      len(others) == 1, idx, fname, f"{len(js)} comparison(s), {len(others)} compared quantity(ies)")
+                ck.ob("R19.2", f"{tag}: every layer 1..{(n_layers or 0) - 1} is considered, in increasing order",
+                      n_layers is not None and js == list(range(n_layers - 1, 0, -1)), idx, fname,
+                      f"layers tested (last store first): {js}")
+                # special values, per cell of the mask partition
+                cells = cells_of(fname, x, [(mod, fi, r)])
+                if up:
+                    bad = []
+                    n_inf = 0
+                    for label, (Pc, (v,)) in cells.items():
+                        pos_ = "(0 < " in label and not label.split("(0 <")[0].rstrip().endswith("not")
+                        is_inf = _is_inf(Pc, v)
+                        undefined = any(Pc.atom_info[a_].get("kind") == "undefined" for a_ in Pc.atoms_in(v))
+                        n_inf += is_inf
+                        if undefined or (is_inf == pos_):
+                            bad.append(f"[{label}] -> {Pc.show(v)[:80]}")
+                    ck.ob("R19.2", f"{tag}: zero pressure maps to infinite altitude, positive pressure to a finite "
+                          "formula, nothing is left undefined", not bad and n_inf >= 1, r.value, fname,
+                          "; ".join(bad[:3]) or f"{len(cells)} cells, {n_inf} infinite")
+                else:
+                    hs = [n for n in walk([r.value]) if (n.op == "Scatter" and n.args[2].op == "Ext" and
+                          n.args[2].attr == "numpy.inf") or (is_ext_call(n, "numpy.full_like", "numpy.full") and
+                          len(n.args) > 2 and n.args[2].op == "Ext" and n.args[2].attr == "numpy.inf")]
+                    undefined = [label for label, (Pc, (v,)) in cells.items()
+                                 if any(Pc.atom_info[a_].get("kind") == "undefined" for a_ in Pc.atoms_in(v))]
+                    ck.ob("R19.2", f"{tag}: infinite altitude is carried as infinite geopotential height (top layer, "
+                          "pressure 0), nothing is left undefined", len(hs) >= 1 and not undefined, r.value, fname,
+                          f"{len(hs)} store(s) of inf; undefined in {undefined[:2]}")
     ck.guard(r192, "R19.2")
 
     # ---------------------------------------------------------------- R19.3 / R19.4 literal tables
@@ -219,3 +316,17 @@ def _first_difference(g, a, b, depth=0):
             if d:
                 return d
     return f"{g.show(a, 2)} [{a.where()}]  vs  {g.show(b, 2)} [{b.where()}]"
+
+
+def _is_masklike(n):
+    return n.op in ("Compare", "BoolOp") or (n.op == "BinOp" and n.attr in ("BitAnd", "BitOr", "BitXor")) or \
+        (n.op == "UnaryOp" and n.attr in ("Invert", "Not"))
+
+
+def _is_inf(P, v):
+    c = v.rat
+    if len(c.num) != 1:
+        return False
+    (m, _c), = c.num.items()
+    return len(m) == 1 and P.atom_info[m[0][0]].get("kind") == "node" and \
+        P.atom_info[m[0][0]]["node"].op == "Ext" and P.atom_info[m[0][0]]["node"].attr == "numpy.inf"
